@@ -52,6 +52,24 @@ Theorem C14_del_after_add_queries_partial : forall c m b kA kD,
 Proof. exact del_after_add_queries. Qed.
 Print Assumptions C14_del_after_add_queries_partial.
 
+(** Whatever the receipts are: every index entry proper (transaction by hash and short hash,
+    address lists, fee lists, fee totals, multi-version data and version entries) is restored
+    exactly, and so is every per-address transaction count — only the coins receiver total
+    depends on the guard. *)
+Theorem C14_index_entries_exact : forall c m b kA kD,
+  sorted m -> fresh c m b = true ->
+  exec_add c m b = Some kA -> exec_del c (write_all kA m) b = Some kD ->
+  forall k, plain k = true -> get k (write_all kD (write_all kA m)) = get k m.
+Proof. exact index_entries_exact. Qed.
+Print Assumptions C14_index_entries_exact.
+
+Theorem C14_addr_counts_restored : forall c m b kA kD,
+  sorted m -> counters_wf m = true ->
+  exec_add c m b = Some kA -> exec_del c (write_all kA m) b = Some kD ->
+  forall a, q_addr_count (write_all kD (write_all kA m)) a = q_addr_count m a.
+Proof. exact addr_counts_restored. Qed.
+Print Assumptions C14_addr_counts_restored.
+
 (** The hypotheses are satisfiable by a non-trivial state: every plugin on (mvcc included), a
     block at height 1 with a transfer, a transaction without local effect and state writes, on a
     local DB that already has counters, totals and version 0; the intermediate and the final map
